@@ -454,7 +454,7 @@ VARIANTS = {
     'Louvain': [{'resolution': 0}, {'resolution': 10}, {'modularity': 'newman'}, {'modularity': 'potts'},
                 {'n_aggregations': 0}, {'tol_optimization': 0, 'tol_aggregation': 0}, {'shuffle_nodes': True}],
     'Leiden': [{'resolution': 0}, {'resolution': 10}, {'modularity': 'newman'}, {'tol_optimization': 0, 'tol_aggregation': 0}],
-    'LouvainHierarchy': [{'depth': 1}, {'resolution': 0}],
+    'LouvainHierarchy': [{'resolution': 0}, {'tol_optimization': 0, 'tol_aggregation': 0}],
     'LouvainIteration': [{'depth': 1}, {'resolution': 0}],
     'Paris': [{'weights': 'uniform'}, {'reorder': False}],
     'KCenters': [{'n_clusters': 1}, {'n_clusters': 3, 'directed': True}],
@@ -519,18 +519,68 @@ def build_tasks(ctx, flavour, quick):
                     if c is not None:
                         ex['labels'] = c
                 add(algo, g, ex)
+    for algo, g, ex in boundary_cases(rng, quick):
+        add(algo, g, ex)
     rng.shuffle(tasks)
     for i, t in enumerate(tasks):
         t['id'] = i
     return tasks
 
 
+def weighted_ring_or_path(rng, n, weights, ring, loop):
+    es, w = [], []
+    for i in range(n - (0 if ring else 1)):
+        x = rng.choice(weights)
+        j = (i + 1) % n
+        es += [(i, j), (j, i)]
+        w += [x, x]
+    if loop:
+        k = rng.randrange(n)
+        es.append((k, k))
+        w.append(rng.choice(weights))
+    order = sorted(range(len(es)), key=lambda k: es[k])
+    return graphs.csr_from_edges(n, [es[k] for k in order], [w[k] for k in order])
+
+
+TOL0_ALGOS = ['Louvain', 'Leiden', 'LouvainHierarchy', 'LouvainIteration', 'LouvainEmbedding']
+
+
+def boundary_cases(rng, quick):
+    """Boundary parameters where machine arithmetic bites (review H1, H2):
+    * tolerance 0 of the modularity kernels on weighted paths / rings with 9..40 nodes (in float32 an exact tie can come
+      out as a tiny positive gain: without a pass cap the nodes exchange their clusters for ever);
+    * seeds whose label is huge (the vote buffer is indexed by label) or INT32_MAX."""
+    out = []
+    count = 60 if quick else 400
+    for c in range(count):
+        algo = TOL0_ALGOS[c % len(TOL0_ALGOS)]
+        n = rng.randint(9, 40)
+        weights = rng.choice([[1, 2, 3], [1, 1, 3], [0.5, 1, 2, 4]])
+        a = weighted_ring_or_path(rng, n, weights, ring=rng.random() < 0.5, loop=rng.random() < 0.3)
+        params = {'tol_optimization': 0}
+        if rng.random() < 0.5:
+            params['tol_aggregation'] = 0
+        if rng.random() < 0.5:
+            params['resolution'] = 0
+        out.append((algo, gdict('tol0_%s%d' % ('w', n), a), {'params': params}))
+    path3 = gdict('path3', _csr(3, [(0, 1), (1, 0), (1, 2), (2, 1)]))
+    path5 = gdict('path5', _csr(5, graphs.structured(rng, 'path', 5)))
+    for g in (path3, path5):
+        for lab in ({'0': 0, '2': 2 ** 31 - 1}, {'0': 2 ** 31 - 2}, {'0': 0, '1': 10 ** 8}, {'0': 3, '2': 4 * 10 ** 8},
+                    {'0': 2 ** 31 - 1}):
+            out.append(('Propagation', g, {'labels': lab}))
+            out.append(('PropagationClustering', g, {}))
+    return out
+
+
 def task_sig(t, kind):
     p = graph_props(t['graph'])
     lab = (t.get('extra') or {}).get('labels')
     labels_ge_n = bool(lab) and any(int(v) >= p['n'] for v in lab.values())
+    params = (t.get('extra') or {}).get('params') or {}
     sig = {'entry': t['algo'], 'kind': kind, 'directed': p['directed'], 'max_index_ge_nnz': p['max_index_ge_nnz'],
-           'labels_ge_n': labels_ge_n}
+           'labels_ge_n': labels_ge_n, 'tol_optimization_zero': params.get('tol_optimization', 1) == 0,
+           'label_ge_1e8': bool(lab) and any(int(v) >= 10 ** 8 for v in lab.values())}
     return sig
 
 
